@@ -198,3 +198,27 @@ mod tests {
         assert_eq!(indices(&[2, 3])[1], vec![0, 1]);
     }
 }
+
+/// Shapes beyond the small-scope grid (DESIGN 8.2, "scale"): every shape over lengths {1,2} with
+/// 6..=max_axes axes (up to 2^max_axes cells), and a ladder of long axes around 255/256, 1 000 and
+/// 65 536 alone and next to short axes.
+pub fn scale_shapes(max_axes: usize) -> Vec<Vec<usize>> {
+    let mut out = Vec::new();
+    for d in 6..=max_axes {
+        for idx in indices(&vec![2; d]) {
+            out.push(idx.iter().map(|x| x + 1).collect());
+        }
+    }
+    for n in [255usize, 256, 257, 1000, 4097, 65535, 65536, 65537] {
+        out.push(vec![n]);
+        if n <= 4097 {
+            out.push(vec![2, n]);
+            out.push(vec![n, 3]);
+            out.push(vec![2, n, 2]);
+        }
+    }
+    out.push(vec![256, 256]);
+    out.push(vec![3, 3, 3, 3, 3, 3, 3]);
+    out.push(vec![2, 3, 2, 3, 2, 3, 2, 3]);
+    out
+}
